@@ -55,13 +55,15 @@ void vf_logp(const char *fmt, ...)
 	if (!steps_on)
 		return;
 	va_start(ap, fmt);
-	if (!strncmp(fmt, "Serving cell ARFCN", 18)) {
+	/* the whole format string decides (a line that merely starts alike is a different line: its
+	 * arguments are not ours to read); anything else is reported as unknown */
+	if (!strcmp(fmt, "Serving cell ARFCN #%d: %d\n")) {
 		a = va_arg(ap, int); b = va_arg(ap, int);
 		sput("%s[\"s\",%d,%d]", slen ? "," : "", a, b);
-	} else if (!strncmp(fmt, "Hopping ARFCN", 13)) {
+	} else if (!strcmp(fmt, "Hopping ARFCN: %d (bit %d)\n")) {
 		a = va_arg(ap, int); b = va_arg(ap, int);
 		sput("%s[\"h\",%d,%d]", slen ? "," : "", a, b);
-	} else if (!strncmp(fmt, "Mobile Allocation ", 18)) {
+	} else if (!strcmp(fmt, "Mobile Allocation hopping index %d exceeds maximum number of cell frequencies. (%d)\n")) {
 		a = va_arg(ap, int); b = va_arg(ap, int);
 		sput("%s[\"x\",%d,%d]", slen ? "," : "", a, b);
 	} else {
